@@ -268,9 +268,9 @@ def errno_reset_before(fn, call):
                     continue
                 if b == pos[0] and k >= pos[1]:
                     continue
-                if n.k == "CallExpr" and n.j.get("callee") not in ("__errno_location", "__ctype_b_loc") and n is not call and not n.within(call):
+                if n.k == "CallExpr" and n.j.get("callee") not in ("__errno_location", "__ctype_b_loc", "isspace") and n is not call and not n.within(call):
                     between.append(n)
-    between = [n for n in between if n.j.get("callee") not in ("__ctype_b_loc",)]
+    between = [n for n in between if n.j.get("callee") not in ("__ctype_b_loc", "isspace")]
     if between:
         return False, "%s() is called between `errno = 0` and the conversion and may set errno" % between[0].j.get("callee")
     return True, "errno = 0 at %s dominates the conversion" % best.where
